@@ -236,7 +236,10 @@ define(
     'Frame obligations of every contract-covered method: only the four '
     'geo-index fields of the data object and _search_results are written; '
     'the parameter object and the eligibility/impact/share tables are outside '
-    'every frame, so repeated queries return the memoised value.  Call '
+    'every frame, so repeated queries return the memoised value; after '
+    'either search the stored result heap is the one created by that call '
+    '(no design of an earlier search survives, also when nothing is pushed); '
+    'the lru_cache helpers of the diagnostics read only their arguments.  Call '
     'sequences over the whole API (incl. greedy_search, search_results) are '
     'checked by the bounded monitor.',
     'DESIGN.md section 7, C10',
